@@ -2,6 +2,9 @@ import MJ.Proofs.LocDebug
 import MJ.Proofs.LocTables
 import MJ.Proofs.LocCodegen
 import MJ.Proofs.LocVmTie
+import MJ.Proofs.LocAstStmt
+import MJ.Proofs.LocParse
+import MJ.Model.LocAstArms
 /-!
 # C14 — errors point at the right template line; reported ranges are valid slices
 
@@ -497,6 +500,171 @@ example : satInc 7 = 8 ∧ satInc 65535 = 65535 ∧ asU32 4294967301 = 5 := by d
 
 example : rowLocated ("CompareAndPreserve", "In|NotIn", "ctx_ok", "ops::contains") = true ∧
     rowLocated ("CompareAndPreserve", "In|NotIn", "ok", "ops::contains") = false := by decide
+
+
+/-! ## 8. the parser: which token starts and which ends the span of a node -/
+
+open MJ.LocParse in
+/-- A parse function that remembers `current_span()` when it is entered (or the span of the first
+    token it consumes), consumes `k ≥ 1` tokens and builds the node with `expand_span`: the span runs
+    from the start of the first to the end of the last token of the construct. -/
+theorem span_covers_construct (s : TS) (k : Nat) (hinv : Inv s) (hk : 1 ≤ k) (hlen : s.pos + k ≤ s.toks.length) :
+    ∃ a b, s.toks[s.pos]? = some a ∧ s.toks[s.pos + k - 1]? = some b ∧ built .current s k = cover a b := by
+  have hlt : s.pos < s.toks.length := by omega
+  have hq : s.toks[s.pos]? = some s.toks[s.pos] := List.getElem?_eq_getElem hlt
+  obtain ⟨_, _, h3⟩ := nextN_spec k s hlen
+  refine ⟨s.toks[s.pos], (nextN k s).last, hq, h3 hk, ?_⟩
+  simp [built, capture, TS.currentSpan, hq, TS.expand, expandSpan, cover]
+
+open MJ.LocParse in
+/-- … one that remembers `last_span()` instead (`parse_compare`, `parse_ifexpr`): the span starts at the
+    token in FRONT of the construct, or is `Span::default()` (line 0) if there is none. -/
+theorem span_from_last_span (s : TS) (k : Nat) (hinv : Inv s) (hk : 1 ≤ k) (hlen : s.pos + k ≤ s.toks.length) :
+    ∃ b, s.toks[s.pos + k - 1]? = some b ∧
+      (s.pos = 0 → built .last s k = cover Span.default b) ∧
+      (∀ j, s.pos = j + 1 → ∃ p, s.toks[j]? = some p ∧ built .last s k = cover p b) := by
+  obtain ⟨_, _, h3⟩ := nextN_spec k s hlen
+  refine ⟨(nextN k s).last, h3 hk, ?_, ?_⟩
+  · intro h0
+    simp [built, capture, hinv.2.1 h0, TS.expand, expandSpan, cover]
+  · intro j hj
+    exact ⟨s.last, hinv.2.2 j hj, by simp [built, capture, TS.expand, expandSpan, cover]⟩
+
+/-- the full invariant: whatever a parse function remembers, the span covers exactly its construct -/
+def SpanCoversConstruct_full : Prop :=
+  ∀ (c : MJ.LocParse.Cap) (s : MJ.LocParse.TS) (k : Nat), MJ.LocParse.Inv s → 1 ≤ k → s.pos + k ≤ s.toks.length →
+    ∃ a b, s.toks[s.pos]? = some a ∧ s.toks[s.pos + k - 1]? = some b ∧ MJ.LocParse.built c s k = MJ.LocParse.cover a b
+
+open MJ.LocParse in
+/-- … is false: `{{ 1 in 2 }}` — `parse_compare` is entered after `{{`, consumes `1 in 2` and builds
+    a `BinOp` whose span starts at `{{` -/
+theorem span_covers_construct_counterexample : ¬ SpanCoversConstruct_full := by
+  intro h
+  have hinv : Inv (TS.new [⟨1, 0, 0, 1, 2, 2⟩, ⟨1, 3, 3, 1, 4, 4⟩, ⟨1, 5, 5, 1, 7, 7⟩, ⟨1, 8, 8, 1, 9, 9⟩]).next :=
+    (Inv.new _).next
+  obtain ⟨a, b, ha, hb, hc⟩ := h .last _ 3 hinv (by decide) (by decide)
+  revert ha hb hc
+  simp [TS.new, TS.next, built, capture, nextN, TS.expand, expandSpan, cover]
+  intro ha hb
+  subst ha; subst hb
+  decide
+
+open MJ.LocParse in
+/-- it holds for every site that does not use `last_span()` … -/
+theorem span_covers_construct_partial (c : Cap) (hc : c ≠ .last) (s : TS) (k : Nat) (hinv : Inv s) (hk : 1 ≤ k)
+    (hlen : s.pos + k ≤ s.toks.length) :
+    ∃ a b, s.toks[s.pos]? = some a ∧ s.toks[s.pos + k - 1]? = some b ∧ built c s k = cover a b := by
+  cases c with
+  | current => exact span_covers_construct s k hinv hk hlen
+  | last => exact absurd rfl hc
+
+open MJ.LocParse in
+/-- … and those sites of parser.rs are (table `c14ParserSpans`, one row per `Spanned::new`): every site
+    starts its span at `current_span()` on entry, at a token it has consumed or at a span handed in by
+    such a site — except exactly the listed ones, which use `last_span()`: the root `Template` (no token
+    in front: `Span::default()`), the caller macro of a call block (the token in front is the `call`
+    keyword, which belongs to the construct) and `parse_compare` / `parse_ifexpr` (KNOWN finding:
+    `BinOp` of a comparison, `UnaryOp` of `not in`, `Compare`, `IfExpr` start at the previous token). -/
+theorem source_tie_parser_spans :
+    ((MJ.Gen.c14ParserSpans.filter (fun r => !coveringStart r.2.2.1)).map (fun r => (r.1, r.2.1)) = lastSpanSites) ∧
+    (MJ.Gen.c14ParserSpans.all (fun r => coveringStart r.2.2.1 || r.2.2.1 == "last_span") = true) := by
+  decide
+
+example : MJ.LocParse.built .current (MJ.LocParse.TS.new [⟨1, 0, 0, 1, 2, 2⟩, ⟨1, 3, 3, 1, 4, 4⟩, ⟨2, 0, 6, 2, 2, 8⟩]).next 2 =
+    ⟨1, 3, 3, 2, 2, 8⟩ := by decide
+
+/-! ## 9. the code generator on whole programs: every instruction's line lies in its construct -/
+
+open MJ.LocAst in
+/-- `CodeGenerator::add` records the current line whichever branch it takes (the innermost span only if
+    it starts on that very line): the rule `stepL` uses for `add` -/
+theorem cg_add_records_current_line (c : Cg) :
+    (∃ sp, c.add.instrs = (c.instrs.addWithSpan sp).1 ∧ sp.startLine = c.currentLine) ∨
+    c.add.instrs = (c.instrs.addWithLine c.currentLine).1 := by
+  unfold Cg.add
+  cases hst : c.spanStack with
+  | nil => exact Or.inr rfl
+  | cons sp tl =>
+    by_cases h : sp.startLine = c.currentLine
+    · exact Or.inl ⟨sp, by simp [h], h⟩
+    · exact Or.inr (by simp [h])
+
+open MJ.LocAst in
+/-- For every well-formed tree (`wf`: the line range of a construct contains those of its parts and —
+    unless the node is a comparison / conditional expression that is not folded to a constant — the
+    start line of its span; checked on every dumped AST of the real parser): every instruction that
+    `compile_stmt` emits, in whatever context, is recorded with a line that lies within the first and
+    the last line of the construct whose compile arm emitted it.  So an error raised by an instruction
+    reports a line inside the failing construct. -/
+theorem instr_line_in_construct (ctx : List Pend) (n : Node) (hw : wf n = true) (s : LS)
+    (hs : n.lo ≤ s.cur ∧ s.cur ≤ n.hi) :
+    ∀ e ∈ (execL s (cStmt ctx n)).2, ∃ l, e.line = some l ∧ e.lo ≤ l ∧ l ≤ e.hi := by
+  intro e he
+  have h := stmt_lines_ok ctx n hw s hs e he
+  unfold Em.ok at h
+  split at h
+  · rename_i l hl
+    simp only [Bool.and_eq_true, decide_eq_true_eq] at h
+    exact ⟨l, hl, h.1, h.2⟩
+  · cases h
+
+open MJ.LocAst in
+/-- the same for a standalone expression (`Environment::compile_expression`): no assumption on the state -/
+theorem instr_line_in_construct_expr (ctx : List Pend) (n : Node) (hw : wf n = true) (he : isE n = true) (s : LS) :
+    ∀ e ∈ (execL s (cExpr ctx n)).2, ∃ l, e.line = some l ∧ e.lo ≤ l ∧ l ≤ e.hi := by
+  intro e hm
+  have h := expr_lines_ok ctx n hw he s e hm
+  unfold Em.ok at h
+  split at h
+  · rename_i l hl
+    simp only [Bool.and_eq_true, decide_eq_true_eq] at h
+    exact ⟨l, hl, h.1, h.2⟩
+  · cases h
+
+/-- `{{ foo(⏎ 1 == 1 and x) }}` as dumped from the real parser (line ranges from the token stream) -/
+def witnessFolded (folded : Bool) : MJ.LocAst.Node :=
+  .mk .template ⟨0, 0, 0, 2, 17, 25⟩ false "" 0 0 2
+    [.mk .emitexpr ⟨1, 0, 0, 2, 14, 22⟩ false "" 0 1 2
+      [.mk .call ⟨1, 3, 3, 2, 14, 22⟩ false "" 0 1 2
+        [.mk .var ⟨1, 3, 3, 1, 6, 6⟩ false "foo" 0 1 1 [],
+         .mk .apos Span.default false "" 0 1 2
+          [.mk .bin ⟨2, 1, 9, 2, 13, 21⟩ false "ScAnd" 0 2 2
+            [.mk .bin ⟨1, 6, 6, 2, 7, 15⟩ folded "Eq" 0 2 2
+              [.mk .const ⟨2, 1, 9, 2, 2, 10⟩ true "" 0 2 2 [], .mk .const ⟨2, 6, 14, 2, 7, 15⟩ true "" 0 2 2 []],
+             .mk .var ⟨2, 12, 20, 2, 13, 21⟩ false "x" 0 2 2 []]]]]]
+
+/-- the statement over what the parser guarantees by itself (`wfP`) -/
+def InstrLineInConstruct_full : Prop :=
+  ∀ (ctx : List MJ.LocAst.Pend) (n : MJ.LocAst.Node), MJ.LocAst.wfP n = true → ∀ s : MJ.LocAst.LS, n.lo ≤ s.cur ∧ s.cur ≤ n.hi →
+    ∀ e ∈ (MJ.LocAst.execL s (MJ.LocAst.cStmt ctx n)).2, ∃ l, e.line = some l ∧ e.lo ≤ l ∧ l ≤ e.hi
+
+open MJ.LocAst in
+/-- … is false: the comparison `1 == 1` is folded to a constant and its `LoadConst` is recorded on the
+    start line of its span — line 1, the line of the `(` in front of it, outside the construct
+    (line 2); the location-less jump of `and` inherits that line.  (Neither can fail.) -/
+theorem instr_line_in_construct_counterexample : ¬ InstrLineInConstruct_full := by
+  intro h
+  have hw : wfP (witnessFolded true) = true := by decide
+  have hm : (⟨"LoadConst", some 1, 2, 2⟩ : Em) ∈ (execL LS.init (cStmt [] (witnessFolded true))).2 := by decide
+  obtain ⟨l, hl, h1, _⟩ := h [] (witnessFolded true) hw LS.init (by decide) _ hm
+  cases hl
+  exact absurd h1 (by decide)
+
+open MJ.LocAst in
+/-- the hypothesis of `instr_line_in_construct` is satisfiable, and says what it should on the same
+    template without folding (`{{ foo(⏎ a == 1 and x) }}`-shaped): lines 2, 2, 2, 2 (plain jump), 2, 2, 2 -/
+example : wf (witnessFolded false) = true ∧ wf (witnessFolded true) = false := by decide
+
+open MJ.LocAst in
+example : ((execL LS.init (cStmt [] (witnessFolded false))).2.map (fun e => e.line)) =
+      [some 2, some 2, some 2, some 2, some 2, some 2, some 2] ∧
+    ((execL LS.init (cStmt [] (witnessFolded true))).2.map (fun e => e.line)) = [some 1, some 1, some 2, some 2, some 2] := by
+  decide
+
+/-- the call sites of codegen.rs that decide a location (table `c14CodegenArms`, regenerated: function,
+    call, instructions / argument, in source order) are the ones the model `MJ/Model/LocAst.lean` was
+    written from and validated against -/
+theorem source_tie_codegen_arms : MJ.Gen.c14CodegenArms = MJ.LocAst.expectedArms := rfl
 
 /-! ## the full statement -/
 
